@@ -8,6 +8,8 @@ Local Open Scope string_scope.
 (* names of the two inputs of the descent (for statements outside string_scope) *)
 Definition k_mRootNode : string := "mRootNode".
 Definition k_itemPred : string := "itemPred".
+Definition k_mNode : string := "mNode".
+Definition k_mItemIndex : string := "mItemIndex".
 
 Section Steps.
 Variables (linear : bool) (P : Z -> bool) (r : node) (calls : string -> env -> option env).
